@@ -21,7 +21,7 @@ EXPLANATION = (
     "reference counting under all copy/destroy interleavings.")
 ASSUMPTIONS = ["std::shared_ptr reference counting is correct", "the mutex object itself is used from one thread at a time when requesting access (documented)"]
 THOROUGH_CONFIGS = [["-UNDEBUG", "-DPIKA_DEBUG"]]
-FLOORS = {"C04.R1": 4, "C04.R2": 3, "C04.R3": 2, "C04.R4": 1, "C04.R5": 6, "C04.R6": 8, "C04.R7": 2}
+FLOORS = {"C04.R1": 4, "C04.R2": 3, "C04.R3": 2, "C04.R4": 1, "C04.R5": 6, "C04.R6": 8, "C04.R7": 2, "C04.R8": 1}
 
 RW = "pika::execution::experimental::async_rw_mutex_access_type::readwrite"
 RD = "pika::execution::experimental::async_rw_mutex_access_type::read"
@@ -34,6 +34,8 @@ def run(rep, tier):
     rep.rule("C04.R3", "K2: done(): one exchange(this); next read before continuation()")
     rep.rule("C04.R4", "K2: ~shared_state_base: next_state.reset() before p->done(), only if next_state")
     rep.rule("C04.R5", "K6: start(): continuation() only if !add_op_state(this); continuation moves the state into the wrapper, completes once; sender dtor starts detached")
+    rep.rule("C04.R8", "K9/K6 (ownership): every access group's shared state co-owns the wrapped value - the handle it stores is a shared-ownership smart pointer, assigned by that "
+             "type's assignment operator, not a plain pointer/reference into the mutex (the value must outlive the last access wrapper even if the mutex is destroyed first)")
     rep.rule("C04.R6", "K9: write wrappers/senders move-only, read ones copyable, mutex not copyable")
     rep.rule("C04.R7", "K5: op_state_head only via compare_exchange_weak/exchange with >= acq_rel")
 
@@ -114,6 +116,24 @@ def run(rep, tier):
                 rep.bad("C04.R1", fn, loc_of(aev), member, "; ".join(probs))
             else:
                 rep.ok("C04.R1", fn, "%s(): allocation rule, prev_access = %s, link-or-grant exactly once%s" % (member, val.rsplit("::", 1)[-1], ", value handed on" if is_value else ""))
+
+    # ---- R8: the value handle kept by a shared state is an owning one
+    svs = [f for f in D.find(r"^pika::execution::experimental::detail::async_rw_mutex_shared_state::set_value$") if not f.pattern and f.parent == -1]
+    if not svs:
+        raise AnalysisBroken("async_rw_mutex_shared_state<T>::set_value not instantiated")
+    OWNING = ("std::shared_ptr::", "std::__shared_ptr::", "pika::memory::intrusive_ptr::", "pika::intrusive_ptr::")
+    for fn in svs:
+        stores = [e for _, _, e in fn.all_events() if (e.get("k") == "write" and P(e["lhs"]).startswith("this->")) or
+                  (e.get("k") == "call" and e.get("op") == "=" and e.get("recv") is not None and P(e["recv"]).startswith("this->"))]
+        if len(stores) != 1:
+            raise AnalysisBroken("%s: expected one store into the state" % fn.full)
+        e = stores[0]
+        if e.get("k") == "call" and callee_of(e).startswith(OWNING):
+            rep.ok("C04.R8", fn, "the state takes the value over with %s (shared ownership)" % callee_of(e))
+        else:
+            rep.bad("C04.R8", fn, loc_of(e), "value-not-owned", "the access group's state stores the wrapped value as %s: it does not own it, so wrappers that outlive the async_rw_mutex "
+                    "(fire-and-forget accesses, a mutex destroyed or reassigned while accesses are pending) read and write a destroyed object"
+                    % ("a plain pointer/reference (%s)" % T(e)[:60] if e.get("k") == "write" else callee_of(e)))
 
     # ---- R2
     ao = [f for f in D.find("^" + BASE + "::add_op_state$") if f.parent == -1][0]
